@@ -49,7 +49,8 @@ def _shifted_sum(src, shifts_and_weights, keys=None):
     return out
 
 
-def h_conservation(ctx, skeleton, n, sym_durations, dmax_h=2, rmax_h=3, args=None, placement=True):
+def h_conservation(ctx, skeleton, n, sym_durations, dmax_h=2, rmax_h=3, args=None, placement=True, negative=()):
+    """negative: jobs whose data_stored is negative (they delete data): the totals are conserved with their sign"""
     spec = M.SKELETONS[skeleton](n, **(args or {}))
     gt = gt_sets(spec)
     sym = traffic_syms(spec)
@@ -60,7 +61,8 @@ def h_conservation(ctx, skeleton, n, sym_durations, dmax_h=2, rmax_h=3, args=Non
         if "request" in sym_durations:
             sym[f"{j}.request_duration"] = dict(lo=0, lo_strict=True, hi=3600 * rmax_h, nice=(1, 3600 * rmax_h))
         sym[f"{j}.data_transferred"] = dict(lo=0, hi=10 ** 6, nice=(1, 900))
-        sym[f"{j}.data_stored"] = dict(lo=0, hi=10 ** 6, nice=(1, 900))
+        sym[f"{j}.data_stored"] = dict(lo=0, hi=10 ** 6, nice=(1, 900)) if j not in negative else \
+            dict(lo=-10 ** 6, hi=0, hi_strict=True, nice=(-900, -1))
         sym[f"{j}.ram_needed"] = dict(lo=0, hi=10 ** 5, nice=(1, 900))
     for d in gt["devices"]:
         sym[f"{d}.power"] = dict(lo=0, hi=1000, nice=(1, 100))
@@ -163,6 +165,8 @@ def plan(tier, seed):
          ("conservation", dict(skeleton="T4", n=2, sym_durations=["steps"], dmax_h=2)),
          ("conservation", dict(skeleton="T3", n=2, sym_durations=["request"], rmax_h=2)),
          ("conservation", dict(skeleton="T2", n=2, sym_durations=["steps"], dmax_h=3)),
+         ("conservation", dict(skeleton="T7", n=2, sym_durations=[], negative=["jobdel"])),
+         ("conservation", dict(skeleton="T4", n=2, sym_durations=[], negative=["jobB"])),
          ("conservation", dict(skeleton="TX", n=2, sym_durations=[], dmax_h=2)),
          ("conservation", dict(skeleton="TX", n=2, sym_durations=[], dmax_h=2, args={"shared": True}))]
     if tier == "thorough":
